@@ -56,6 +56,41 @@ Theorem C05_quit_ends_loop : forall sh scr prefix later progs s,
 Proof. exact quit_ends_loop. Qed.
 Print Assumptions C05_quit_ends_loop.
 
+(* the ORDER of the two halves of quit() matters.  `step` (all theorems here) is store-then-wake =
+   `step_o true`; with the wake-up first and the store last (`step_o false`) quit() can be late: REFUTED by
+   a ten-step witness for every shape whose quit() wakes from a foreign thread: the loop thread consumes
+   the wake-up, re-tests quit_ (still clear), blocks in the next poll; then quit_ is stored: every thread
+   blocked, quit_ set, only the poll time-out ends loop() *)
+Theorem C05_store_first_is_step : forall sh scr s lab, step_o true sh scr s lab = step sh scr s lab.
+Proof. exact step_o_true. Qed.
+Print Assumptions C05_store_first_is_step.
+
+Theorem C05_quit_ends_loop_wake_first_refuted : forall sh scr, qwake sh false = true ->
+  exists s, run_o false sh scr (init [] [] [[AQuit]]) wake_first_labels = Some s /\
+            quit (sg s) = true /\ quit_called (log (sg s)) = true /\ returned (log (sg s)) = false /\
+            quiescent s = true /\ looping (sg s) = true.
+Proof. exact wake_first_witness. Qed.
+Print Assumptions C05_quit_ends_loop_wake_first_refuted.
+
+(* the CURRENT tree: decided by the generated fact quit_stores_before_wakeup *)
+Definition C05_current_tree_quits_late : bool := negb Gen_C04.quit_stores_before_wakeup.
+Theorem C05_quit_order_current_tree :
+  if Gen_C04.quit_stores_before_wakeup
+  then (forall s lab, step_o Gen_C04.quit_stores_before_wakeup Gen_C04.gen_shape no_scripts s lab = step Gen_C04.gen_shape no_scripts s lab) /\
+       (forall scr prefix later progs s, reach Gen_C04.gen_shape scr (init prefix later progs) s -> quit (sg s) = true ->
+          quiescent s = false /\ (pc s = LPoll -> 0 < evfd (sg s) \/ midquit s = true))
+  else exists s, run_o false Gen_C04.gen_shape no_scripts (init [] [] [[AQuit]]) wake_first_labels = Some s /\
+         quit (sg s) = true /\ quit_called (log (sg s)) = true /\ returned (log (sg s)) = false /\
+         quiescent s = true /\ looping (sg s) = true.
+Proof.
+  destruct Gen_C04.quit_stores_before_wakeup eqn:E.
+  - split; [intros; apply step_o_true|]. intros scr prefix later progs s R Q.
+    exact (quit_ends_loop _ _ _ _ _ _ C05_gen_quit_wakes R Q).
+  - apply wake_first_witness. exact C05_gen_quit_wakes.
+Qed.
+Print Assumptions C05_quit_order_current_tree.
+Eval vm_compute in (C05_current_tree_quits_late, 505).   (* parsed by lib/props/C05.py *)
+
 (* "once the current iteration is finished": any step (of any thread, time-outs included) from a
    state with quit_ set and the loop thread inside the while loop leaves the loop, or stays inside
    with quit_ still set and the loop thread no further from the while test than before: it never
